@@ -15,7 +15,8 @@ RULE = ("every run starts with three fixed cases that iterate over ALL connector
         "the current epoch-millisecond time and replaced by NOW); the model's `frame` / `topic` lines are the reading of the model's JSON text by its own "
         "venue-side reader (`readText`), so the two readers are compared on identical text. Thorough additionally enumerates, for each of the 21 pairs, every instrument list of "
         "length 1-3 over three instruments two of which share a venue symbol (39 x 21 = 819 cases, each followed by the list without its last element), and "
-        "for each connector every `req` list of length 1-2 over four topics (20 x 15 = 300). A case is distinct by the SHA-1 of its op lines and "
+        "for each connector every `req` list of length 1-2 over four topics (20 x 15 = 300). corpus/C13Q/domain.ops (input-domain audit): 35 (Okx: 70) subscriptions in ONE call with numbered names (btc1 a prefix of btc12, "
+        "btc+2usd = btc2+usd on concatenating venues) - the generator stops at 6 instruments per call. A case is distinct by the SHA-1 of its op lines and "
         "non-trivial when the implementation's trace shows at least two different observation blocks")
 ASSUMPTIONS = [
     "ASCII only: Binance lower-cases the market with the Unicode `to_lowercase`; the model lower-cases A-Z (the correspondence generates ASCII names)",
